@@ -2,6 +2,7 @@ pub mod deviate;
 pub mod guard;
 pub mod json;
 pub mod known;
+pub mod place;
 pub mod run;
 pub mod space;
 
